@@ -402,8 +402,11 @@ impl MqttShared {
     fn pkt_ack_inner(&self, pkt: Ack) -> Result<(), error::ProtocolError> {
         let mut queues = self.queues.borrow_mut();
 
-        // check ack order
-        if let Some((idx, tx, tp)) = queues.inflight.pop_front() {
+        // check ack order, exchange with unwritten PUBREL expects nothing from the peer
+        let pos = queues.inflight.iter().position(|(idx, _, tp)| {
+            !(matches!(tp, AckType::Complete) && queues.rx.contains_key(idx))
+        });
+        if let Some((idx, tx, tp)) = pos.and_then(|pos| queues.inflight.remove(pos)) {
             if idx != pkt.packet_id() {
                 log::trace!(
                     "MQTT protocol error, packet_id order does not match, expected {}, got: {}",
@@ -623,9 +626,19 @@ impl MqttShared {
         &self,
         pkt: codec::PublishAck2,
     ) -> Result<pool::Receiver<Ack>, SendPacketError> {
-        let Some(rx) = self.queues.borrow_mut().rx.remove(&pkt.packet_id) else {
+        let mut queues = self.queues.borrow_mut();
+        let Some(rx) = queues.rx.remove(&pkt.packet_id) else {
             return Err(SendPacketError::UnexpectedRelease);
         };
+        // PUBCOMP packets arrive in the order PUBREL packets are written
+        let pos = queues
+            .inflight
+            .iter()
+            .position(|(idx, _, tp)| *idx == pkt.packet_id && matches!(tp, AckType::Complete));
+        if let Some(item) = pos.and_then(|pos| queues.inflight.remove(pos)) {
+            queues.inflight.push_back(item);
+        }
+        drop(queues);
 
         match self.io.encode(Encoded::Packet(codec::Packet::PublishRelease(pkt)), &self.codec) {
             Ok(()) => Ok(rx),
